@@ -26,6 +26,11 @@ type RdbReplay struct {
 	KeyExists       string
 	KeyExistsLog    bool
 	ReplaceHashTag  bool
+
+	// ignoredKey is the key whose first bin found an existing target key under
+	// the "ignore" policy; the remaining bins of that (split) value are skipped too.
+	ignoredKey []byte
+	ignoring   bool
 }
 
 func (rr *RdbReplay) Replay(e *rdb.BinEntry) (err error) {
@@ -61,6 +66,7 @@ func (rr *RdbReplay) Replay(e *rdb.BinEntry) (err error) {
 			return fmt.Errorf("rdb module object requires RESTORE replay for key %s", e.Key)
 		}
 		if e.FirstBin() {
+			rr.ignoring = false
 			exist, err := common.Bool(rr.Client.Do("exists", e.Key))
 			if err != nil {
 				return err
@@ -79,10 +85,16 @@ func (rr *RdbReplay) Replay(e *rdb.BinEntry) (err error) {
 					if rr.KeyExistsLog {
 						log.Warnf("output key exist, ignore it : %s", e.Key)
 					}
+					rr.ignoring = true
+					rr.ignoredKey = append(rr.ignoredKey[:0], e.Key...)
+					return nil
 				case "error":
 					return fmt.Errorf("output key exist : %s", e.Key)
 				}
 			}
+		} else if rr.ignoring && bytes.Equal(rr.ignoredKey, e.Key) {
+			// bins of one value arrive in order on the same replayer
+			return nil
 		}
 
 		err = restoreBigRdbEntry(rr.Client, e)
